@@ -129,11 +129,47 @@ func (c *child) kill() {
 	_ = c.cmd.Wait()
 }
 
+// childPool keeps children alive between chunks (process start is expensive on a loaded machine).
+type childPool struct {
+	mu   sync.Mutex
+	idle []*child
+}
+
+var pool childPool
+
+func (p *childPool) get(cfg runCfg) (*child, error) {
+	p.mu.Lock()
+	if n := len(p.idle); n > 0 {
+		ch := p.idle[n-1]
+		p.idle = p.idle[:n-1]
+		p.mu.Unlock()
+		return ch, nil
+	}
+	p.mu.Unlock()
+	return startChild(cfg)
+}
+func (p *childPool) put(ch *child) {
+	p.mu.Lock()
+	p.idle = append(p.idle, ch)
+	p.mu.Unlock()
+}
+
+// ClosePool terminates the idle children.
+func ClosePool() {
+	pool.mu.Lock()
+	cs := pool.idle
+	pool.idle = nil
+	pool.mu.Unlock()
+	for _, ch := range cs {
+		ch.kill()
+	}
+}
+
 // runChunk runs cases[lo:hi) on one child (restarting as needed), filling res.
 func runChunk(cfg runCfg, cases []Case, res []Res, lo, hi int) {
 	i := lo
 	for i < hi {
-		ch, err := startChild(cfg)
+		ch, err := pool.get(cfg)
 		if err != nil {
 			for ; i < hi; i++ {
 				res[i] = Res{Status: "crash", Detail: "harness|startChild|-|" + err.Error()}
@@ -151,7 +187,6 @@ func runChunk(cfg runCfg, cases []Case, res []Res, lo, hi int) {
 					return
 				}
 			}
-			_ = ch.in.Close()
 		}()
 		restart := false
 		for i < hi && !restart {
@@ -189,7 +224,11 @@ func runChunk(cfg runCfg, cases []Case, res []Res, lo, hi int) {
 				restart = true
 			}
 		}
-		ch.kill()
+		if restart {
+			ch.kill()
+		} else {
+			pool.put(ch)
+		}
 	}
 }
 
@@ -226,8 +265,8 @@ func RunCases(cfg runCfg, cases []Case) []Res {
 		return res
 	}
 	chunk := len(cases)/(cfg.Workers*8) + 1
-	if chunk > 2000 {
-		chunk = 2000
+	if chunk > 500 {
+		chunk = 500
 	}
 	type span struct{ lo, hi int }
 	ch := make(chan span)
